@@ -607,7 +607,12 @@ type ArrayLiteral struct {
 
 func (al ArrayLiteral) PrettyPrint(out *PrintState) *PrintState {
 	out.Print("[")
+	// The elements stand between brackets and commas: whatever surrounds the literal does not bind into them
+	// (no parentheses because of it; [1:] + b must not become [(1 :)] + b, which cannot be read back).
+	oldExpressionPrecedence := out.ExpressionPrecedence
+	out.ExpressionPrecedence = LOWEST
 	out.ComaList(al.Elements)
+	out.ExpressionPrecedence = oldExpressionPrecedence
 	out.Print("]")
 	return out
 }
